@@ -155,6 +155,17 @@ def check_case(case):
               and len(listed) == len(order) + len(set(extra)), 'missing-list',
               lambda: f'listed {listed}; model: {order} then {sorted(extra)} (any order)')
       labels.add('outcome:missing')
+      # the same call once more: the verdict is a function of the call and the configuration, not
+      # of how often the configurable was called before
+      try:
+        built.call(args, kwargs)
+        raised_again = None
+      except (RuntimeError, ValueError, TypeError) as e:
+        raised_again = e
+      require(isinstance(raised_again, RuntimeError) and len(built.log) == n_before and
+              str(raised_again) == msg, 'second-identical-call-differs',
+              lambda: f'first: {msg!r}\nsecond: {raised_again!r}, body ran: '
+                      f'{len(built.log) > n_before}')
       partial = any(p in app for p in marked)
       nt = len(kinds) >= 2 and partial
       if nt:
